@@ -183,3 +183,8 @@ mod tests {
     static MEMORY_ADDR_2000: LazyLock<Multiaddr> =
         LazyLock::new(|| Multiaddr::empty().with(Protocol::Memory(2000)));
 }
+
+#[cfg(kani)]
+pub(crate) mod verif {
+    include!(concat!(env!("LIBP2P_VERIF"), "/hooks/swarm_behaviour_external_addresses.rs"));
+}
